@@ -174,7 +174,7 @@ pub fn run(ctx: &mut Ctx) {
         let ac = gen_auth(ctx);
         let (req, mut req_tok) = match ctx.rng.below(7) {
             0 | 1 => {
-                let a: SocketAddr = ctx.rng.pick(&["93.184.216.34:443", "[2606:2800:220:1::1]:80", "0.0.0.0:0", "255.255.255.255:65535"]).parse().unwrap();
+                let a: SocketAddr = ctx.rng.pick(&["93.184.216.34:443", "[2606:2800:220:1::1]:80", "0.0.0.0:0", "255.255.255.255:65535", "[::ffff:192.0.2.7]:443", "[::1]:8080", "[::]:1", "[::192.0.2.7]:53", "[64:ff9b::c000:207]:80"]).parse().unwrap();
                 (VSocksRequest::ConnectIp(a), format!("cip {}", sock_tok(&a)))
             }
             2 | 3 | 4 => {
@@ -279,18 +279,51 @@ pub fn run(ctx: &mut Ctx) {
                     let l = tokio::net::TcpListener::bind("127.0.0.1:0").await.unwrap();
                     let addr = l.local_addr().unwrap();
                     let srv = tokio::spawn(async move {
+                        let mut sink = vec![];
                         if let Ok((mut s, _)) = l.accept().await {
-                            let _ = s.write_all(&server2).await;
+                            // answer like a server does - each part after the client's message for it has been read - so that a
+                            // client that gives up early does not reset the connection over bytes the server has not read yet
+                            let mut parts: Vec<&[u8]> = vec![];
+                            let sel = server2.len().min(2);
+                            parts.push(&server2[..sel]);
+                            let mut rest = &server2[sel..];
+                            if sel == 2 && server2[0] == 5 && (server2[1] == 2 || server2[1] == 0x80) && !rest.is_empty() {
+                                let a = rest.len().min(2);
+                                parts.push(&rest[..a]);
+                                rest = &rest[a..];
+                            }
+                            parts.push(rest);
+                            let mut buf = [0u8; 4096];
+                            for part in parts {
+                                if part.is_empty() {
+                                    continue;
+                                }
+                                // the client's message: read until nothing more comes for a moment
+                                let mut got_any = false;
+                                loop {
+                                    let wait = if got_any { 8 } else { 600 };
+                                    match tokio::time::timeout(std::time::Duration::from_millis(wait), s.read(&mut buf)).await {
+                                        Ok(Ok(n)) if n > 0 => {
+                                            sink.extend_from_slice(&buf[..n]);
+                                            got_any = true;
+                                        }
+                                        _ => break,
+                                    }
+                                }
+                                let _ = s.write_all(part).await;
+                            }
                             let _ = s.shutdown().await;
-                            let mut sink = vec![];
                             let _ = tokio::time::timeout(std::time::Duration::from_secs(2), s.read_to_end(&mut sink)).await;
                         }
+                        sink
                     });
                     let core = make_socks_core(addr, extended);
                     let r = tokio::time::timeout(std::time::Duration::from_secs(5), verif::forwarder_connect(&core, dest, src_auth)).await;
-                    srv.abort();
-                    r
+                    // what the upstream was sent by the forwarder (its connection is closed by now)
+                    let got = tokio::time::timeout(std::time::Duration::from_secs(3), srv).await.ok().and_then(|x| x.ok()).unwrap_or_default();
+                    (r, got)
                 });
+                let (res, upstream_got) = res;
                 let ans = match res {
                     Err(_) => "stalled".to_string(),
                     Ok(o) => {
@@ -328,7 +361,7 @@ pub fn run(ctx: &mut Ctx) {
                     }
                     _ => ac.tok.clone(),
                 };
-                ctx.emit(&format!("c15 fwd {} {} {}", tok2, req_tok, hex(&server)), &ans);
+                ctx.emit(&format!("c15 fwd {} {} {}", tok2, req_tok, hex(&server)), &format!("{} | {}", hex(&upstream_got), ans));
                 ctx.stat(&format!("fwd_{}", ans));
             }
         }
